@@ -103,3 +103,56 @@ func caseSlab(c any) uint32 {
 	}
 	return 0
 }
+
+// minimizeCase: greedy delta debugging over the op list of an engine case (used after rapid's
+// own shrinking, which works under a time budget): remove chunks, then single ops, while the
+// case keeps failing.
+func minimizeCase(p *PropDef, c *Case) (*Case, string) {
+	fails := func(x *Case) (bool, string) {
+		cp := *x
+		_, err := safeRun(p, &cp)
+		if err != nil {
+			return true, err.Error()
+		}
+		return false, ""
+	}
+	ok, msg := fails(c)
+	if !ok {
+		return c, ""
+	}
+	cur := *c
+	for chunk := len(cur.Ops) / 2; chunk >= 1; chunk /= 2 {
+		for i := 0; i+chunk <= len(cur.Ops); {
+			t := cur
+			t.Ops = append(append([]Op(nil), cur.Ops[:i]...), cur.Ops[i+chunk:]...)
+			if f, m := fails(&t); f {
+				cur, msg = t, m
+			} else {
+				i += chunk
+			}
+		}
+	}
+	// simplify values of the remaining ops
+	for i := range cur.Ops {
+		if cur.Ops[i].V != nil && cur.Ops[i].V.K != "u" {
+			t := cur
+			t.Ops = append([]Op(nil), cur.Ops...)
+			t.Ops[i].V = &VD{K: "u"}
+			if f, m := fails(&t); f {
+				cur, msg = t, m
+			}
+		}
+		if cur.Ops[i].N > 1 {
+			for _, n := range []int{1, cur.Ops[i].N / 2} {
+				t := cur
+				t.Ops = append([]Op(nil), cur.Ops...)
+				t.Ops[i].N = n
+				if f, m := fails(&t); f {
+					cur, msg = t, m
+					break
+				}
+			}
+		}
+	}
+	return &cur, msg
+}
